@@ -794,6 +794,7 @@ type mRecResult struct {
 
 type mNestRec struct {
 	mu      sync.Mutex
+	pristine string // copy of wal/ and db0/ of the image taken before it was opened
 	root    string
 	imgRoot string
 	parent  *mImage
@@ -837,8 +838,17 @@ func (nr *mNestRec) after(op, rel, rel2 string, n int64) {
 	}
 	nr.n++
 	dst := filepath.Join(nr.imgRoot, fmt.Sprintf("%s-n%02d", filepath.Base(nr.root), nr.n))
-	if e := copyTree(nr.root, dst); e != nil {
+	// data/ as it is at this instant; the WAL and the series index as the parent image had them
+	// before it was opened (start-up has not touched them yet - the recorder stops at the first
+	// WAL event - and a copy of the index directory of an OPEN index is not a state a crash
+	// leaves: its background merges rewrite part directories while we would be copying)
+	if e := copyTree(filepath.Join(nr.root, "data"), filepath.Join(dst, "data")); e != nil {
 		return
+	}
+	for _, sub := range []string{"wal", "db0"} {
+		if e := copyTree(filepath.Join(nr.pristine, sub), filepath.Join(dst, sub)); e != nil {
+			return
+		}
 	}
 	relocateTxn(dst, nr.root)
 	ents, logs := mListDisk(dst)
@@ -850,6 +860,15 @@ func recoverMulti(img *mImage, msts []string, nParts, nestBudget int, imgRoot st
 	res := mRecResult{dumps: map[string]string{}}
 	var err error
 	nr := &mNestRec{root: img.dir, imgRoot: imgRoot, parent: img, budget: nestBudget, created: map[string]bool{}}
+	if nestBudget > 0 {
+		nr.pristine = img.dir + ".pristine"
+		for _, sub := range []string{"wal", "db0"} {
+			if e := copyTree(filepath.Join(img.dir, sub), filepath.Join(nr.pristine, sub)); e != nil {
+				nr.budget = 0
+			}
+		}
+		defer os.RemoveAll(nr.pristine)
+	}
 	theMux.set(img.dir, nr)
 	perr := hx.Safe(func() {
 		var sh *engine.VerifShard
